@@ -3,9 +3,14 @@
 package verifx
 
 import (
+	"crypto/sha1"
 	"fmt"
+	"os"
+	"path/filepath"
 	"sort"
+	"strconv"
 	"strings"
+	"sync/atomic"
 )
 
 // GNode is one node of an abstract data graph.
@@ -151,4 +156,60 @@ func TruthTableGraph(n int, withDecoys bool) *Graph {
 		}
 	}
 	return g
+}
+
+// ---- documents whose @context is a reference to a file ---------------------------
+
+// RefContextFile writes (once per process) a JSON-LD context document that binds `prefix` to ns and returns its path.
+// JSON-LD allows "@context": "<url or path>"; json-gold's default loader reads non-http references from the file system.
+var refCtxCounter int64
+
+// RefContextFileFresh is RefContextFile with a new path on every call (a loader that memoises by URL has to load it).
+func RefContextFileFresh(prefix, ns string) string {
+	n := atomic.AddInt64(&refCtxCounter, 1)
+	dir := os.Getenv("VERIF_WORK")
+	if dir == "" {
+		dir = os.TempDir()
+	}
+	path := filepath.Join(dir, fmt.Sprintf("ctx-%d-fresh-%d.jsonld", os.Getpid(), n%512))
+	if err := os.WriteFile(path, []byte(fmt.Sprintf(`{"@context": {%q: %q}}`, prefix, ns)), 0o644); err != nil {
+		panic("harness: " + err.Error())
+	}
+	return path // the path is what a memoising loader keys on; 512 paths are recycled
+}
+
+func RefContextFile(prefix, ns string) string {
+	dir := os.Getenv("VERIF_WORK")
+	if dir == "" {
+		dir = os.TempDir()
+	}
+	h := sha1.Sum([]byte(prefix + "|" + ns))
+	path := filepath.Join(dir, fmt.Sprintf("ctx-%d-%x.jsonld", os.Getpid(), h[:4]))
+	if _, err := os.Stat(path); err != nil {
+		if err := os.WriteFile(path, []byte(fmt.Sprintf(`{"@context": {%q: %q}}`, prefix, ns)), 0o644); err != nil {
+			panic("harness: " + err.Error())
+		}
+	}
+	return path
+}
+
+// RefContextJSONLD renders the graph compacted with `prefix` for the namespace EX, the context being a file reference.
+func (g *Graph) RefContextJSONLD(prefix string) string { return g.refContextJSONLD(prefix, false) }
+
+// RefContextJSONLDFresh: the same with a context file path that has not been used before in this process.
+func (g *Graph) RefContextJSONLDFresh(prefix string) string { return g.refContextJSONLD(prefix, true) }
+
+func (g *Graph) refContextJSONLD(prefix string, fresh bool) string {
+	flat := g.FlatJSONLD()
+	compact := strings.ReplaceAll(flat, `"`+EX, `"`+prefix+`:`)
+	path := RefContextFile(prefix, EX)
+	if fresh {
+		path = RefContextFileFresh(prefix, EX)
+	}
+	// the flat rendering is either {"@graph": [...]} or a top-level array
+	t := strings.TrimSpace(compact)
+	if strings.HasPrefix(t, "{") {
+		return `{"@context": ` + strconv.Quote(path) + `,` + t[1:]
+	}
+	return `{"@context": ` + strconv.Quote(path) + `, "@graph": ` + t + `}`
 }
